@@ -1,0 +1,24 @@
+//go:build verif
+
+package traversal
+
+// Observation hook for the verification harness in /verif. Compiled only with -tags verif.
+
+type VerifOpSnapshot struct {
+	Outstanding int
+	Unqueried   int
+	Queried     []string
+	ClosestLen  int
+}
+
+// Unlocked read of the operation's bookkeeping. Call only while every goroutine touching the
+// operation is parked (the harness scheduler guarantees that).
+func (op *Operation) VerifSnapshot() (ret VerifOpSnapshot) {
+	ret.Outstanding = op.outstanding
+	ret.Unqueried = op.unqueried.Len()
+	for a := range op.queried {
+		ret.Queried = append(ret.Queried, string(a))
+	}
+	ret.ClosestLen = op.closest.Len()
+	return
+}
